@@ -27,7 +27,10 @@ def gen_layout(rng, allow_cov=True, max_ens=3):
     cov = None
     if allow_cov and rng.random() < 0.3:
         cov = rng.choice(["covA", "sys_b", "Zc"])
-    return {"chains": chains, "cov": cov, "mag": rng.choice(MAGS), "reweighted": rng.random() < 0.2,
+    zero_cov = None
+    if allow_cov and rng.random() < 0.12:
+        zero_cov = rng.choice([c for c in ["covA", "sys_b", "Zc"] if c != cov])      # a covariance input the observable carries with vanishing gradient (a + c - c)
+    return {"chains": chains, "cov": cov, "zero_cov": zero_cov, "mag": rng.choice(MAGS), "reweighted": rng.random() < 0.2,
             "nonlinear": rng.random() < 0.35}      # a non-linear function: replica means differ from the central value even for one replica
 
 
@@ -97,6 +100,11 @@ def member(layout, seed, tagidx=0):
         co = pe.cov_Obs(cd["means"] if cd["dim"] > 1 else cd["means"][0], np.array(cd["cov"]) if cd["dim"] > 1 else cd["cov"][0][0], layout["cov"])
         co = co if isinstance(co, pe.Obs) else co[rnd.randrange(cd["dim"])]
         tot = tot + (mag * rnd.choice([1.0, 0.25])) * co
+    if layout.get("zero_cov"):
+        cd = objs.COVS[layout["zero_cov"]]
+        cz = pe.cov_Obs(cd["means"] if cd["dim"] > 1 else cd["means"][0], np.array(cd["cov"]) if cd["dim"] > 1 else cd["cov"][0][0], layout["zero_cov"])
+        cz = cz if isinstance(cz, pe.Obs) else cz[0]
+        tot = tot + cz - cz
     if layout.get("nonlinear"):
         tot = tot * tot / mag if abs(mag) < 1e100 else tot
         # an observable whose central value is not the mean of its samples (as after import_jackknife of a non-linear function)
